@@ -181,6 +181,9 @@ func (x *Exec) wf(st *State, t types.Type, v Val) *Term {
 	switch u := v.(type) {
 	case VScalar:
 		if n, ok := numOf(t); ok {
+			if e.ar.Mode == ModeInt && !n.Signed && !n.Float {
+				tagBits(u.T, n.Bits)
+			}
 			return e.ar.InRange(n, u.T)
 		}
 	case VSlice:
@@ -299,16 +302,26 @@ func (x *Exec) oblige(st *State, name, kind string, goal *Term, text, pos string
 	if st.dead || x.pure > 0 {
 		return
 	}
-	ob := &Obligation{Name: name, Func: x.qname, Kind: kind, Text: text, Pos: pos, Tags: tags, Mode: x.e.ar.Mode,
-		Goal: goal, Assume: st.pc[:len(st.pc):len(st.pc)], Path: strings.Join(st.trace, ">")}
-	if goal.IsTrue() {
-		ob.Status = "unsat"
-		ob.Solver = "syntactic"
+	goals := []*Term{goal}
+	if goal.Op == "and" {
+		goals = goal.Args
 	}
-	x.e.mu.Lock()
-	x.e.obligations = append(x.e.obligations, ob)
-	x.e.mu.Unlock()
-	st.assume(goal)
+	for i, g := range goals {
+		txt := text
+		if len(goals) > 1 {
+			txt = fmt.Sprintf("%s  [conjunct %d of %d]", text, i+1, len(goals))
+		}
+		ob := &Obligation{Name: name, Func: x.qname, Kind: kind, Text: txt, Pos: pos, Tags: tags, Mode: x.e.ar.Mode,
+			Goal: g, Assume: st.pc[:len(st.pc):len(st.pc)], Path: strings.Join(st.trace, ">")}
+		if g.IsTrue() {
+			ob.Status = "unsat"
+			ob.Solver = "syntactic"
+		}
+		x.e.mu.Lock()
+		x.e.obligations = append(x.e.obligations, ob)
+		x.e.mu.Unlock()
+		st.assume(g)
+	}
 }
 
 func (x *Exec) safety(st *State, in ssa.Instruction, kind string, goal *Term, text string) {
@@ -630,19 +643,25 @@ func (x *Exec) load(st *State, in ssa.Instruction, addr Val, t types.Type) Val {
 			return arrSel(x.loadGlobal(st, p.Global, p.Path), p)
 		}
 		if p.FRef != nil {
-			return arrSel(st.loadField(p.FSty, p.FIdx, p.FRef), p)
+			v := arrSel(st.loadField(p.FSty, p.FIdx, p.FRef), p)
+			st.assume(x.wf(st, t, v))
+			return v
 		}
 		if p.ObjRef != nil {
 			x.fail("load through object pointer viewed as unsafe.Pointer")
 		}
 		x.safety(st, in, "nil", Not(Eq(p.Reg, e.ar.IConst(0))), "pointer is non-nil")
-		return x.loadTyped(st, in, p, t)
+		v := x.loadTyped(st, in, p, t)
+		st.assume(x.wf(st, t, v))
+		return v
 	case VRef:
 		x.safety(st, in, "nil", Not(Eq(p.T, e.ar.IConst(0))), "pointer is non-nil")
 		if !isStruct(t) {
 			x.fail("load of non-struct through object reference")
 		}
-		return st.loadStructIn(st.heap, t, p.T)
+		v := st.loadStructIn(st.heap, t, p.T)
+		st.assume(x.wf(st, t, v))
+		return v
 	}
 	x.fail("load through %T", addr)
 	return nil
@@ -666,6 +685,24 @@ func (x *Exec) loadTyped(st *State, in ssa.Instruction, p VPtr, t types.Type) Va
 				}
 			}
 			return VScalar{r}
+		}
+		if ok && !n.Float && n.Bits > 8 {
+			// int mode: little-endian digits
+			x.readFootprint(st, in, p, int64(n.Bits/8))
+			var r *Term
+			for k := n.Bits/8 - 1; k >= 0; k-- {
+				b := st.loadElem(byteType, p.Reg, e.ar.Bin(token.ADD, tInt, p.Idx, e.ar.IConst(int64(k)))).(VScalar).T
+				tagBits(b, 8)
+				if r == nil {
+					r = b
+				} else {
+					r = IntOp("+", IntOp("*", r, ConstI(IntSort, 256)), b)
+				}
+			}
+			if n.Signed {
+				x.fail("signed wide load through byte pointer in int mode")
+			}
+			return VScalar{tagBits(r, n.Bits)}
 		}
 		x.readFootprint(st, in, p, 1)
 		return st.loadElem(byteType, p.Reg, p.Idx)
@@ -761,7 +798,18 @@ func (x *Exec) store(st *State, in ssa.Instruction, addr Val, t types.Type, v Va
 }
 
 func (x *Exec) storeWideInt(st *State, in ssa.Instruction, p VPtr, n NumT, v Val) {
-	x.fail("wide store through byte pointer in int mode")
+	e := x.e
+	if n.Signed || n.Float {
+		x.fail("signed/float wide store through byte pointer in int mode")
+	}
+	x.readFootprint(st, in, p, int64(n.Bits/8))
+	t := v.(VScalar).T
+	for k := 0; k < n.Bits/8; k++ {
+		idx := e.ar.Bin(token.ADD, tInt, p.Idx, e.ar.IConst(int64(k)))
+		x.checkAssign(st, in, "range", byteType, p.Reg, idx, nil, 0, nil)
+		d := IntOp("mod", IntOp("div", t, Const(IntSort, bigPow2(uint(8*k)))), ConstI(IntSort, 256))
+		st.storeElem(byteType, p.Reg, idx, VScalar{d})
+	}
 }
 
 func (x *Exec) fieldAddr(st *State, v *ssa.FieldAddr) Val {
